@@ -409,7 +409,7 @@ def main(tier):
                      'the winnow tag parser is replaced by a reference scanner over the concrete comment text',
                      'regex is a stub for the single pattern ^a+$',
                      'Markdown html blocks: MdParser::parse_html_comments on symbolic block start (row, column) and symbolic relative comment positions; tree-sitter query results and the inner HTML comment parser are stubs that return block-relative coordinates',
-                     'ASCII; keys over {a,b} with inner blanks; Lua/AI validators build the same range expression but are async and not interpreted'],
+                     'ASCII; keys over {a,b} with inner blanks; the ranges of Lua/AI diagnostics are asserted in C18/C19'],
         stubs=['WinnowBlockTagParser::next (reference scanner)', 'regex::Regex::new / is_match for ^a+$', 'serde_json::to_value',
                'tree_sitter Parser::parse / QueryCursor::matches / Node (html-block model)', 'CommentsParser::parse of the html parser (block-relative comments)'],
         must_cover=['key-range', 'tag-range', 'tag on a later comment line', 'comment continues after the tag line',
